@@ -133,6 +133,8 @@ func c13Parse(f, s string) (*guid.GUID, error) {
 }
 
 // the five fields of a guid.GUID as lower-case hex of the declared widths
+var c13ReusedGUID data_structures.GUID
+
 func c13GuidFields(g *guid.GUID) map[string]string {
 	return map[string]string{"a": fmt.Sprintf("%08x", g.A), "b": fmt.Sprintf("%04x", g.B), "c": fmt.Sprintf("%04x", g.C),
 		"d": fmt.Sprintf("%04x", g.D), "e": fmt.Sprintf("%012x", g.E)}
@@ -190,6 +192,16 @@ func c13GuidCase(c *h.Ctx, k *c13Case) {
 		if back := g.ToBytes(); !bytes.Equal(back, k.W) {
 			c.Fail("guid.GUID.ToBytes", "roundtrip:bytes", fmt.Sprintf("FromRawBytes(%x).ToBytes() = %x", []byte(k.W), back), smp)
 		}
+		// the same packet parsed into a receiver that already holds the previous case's value: every field is assigned
+		h.Guard(func() { c13ReusedGUID.FromRawBytes(k.W) })
+		if rg := c13GuidFields(&c13ReusedGUID); fmt.Sprint(rg) != fmt.Sprint(got) {
+			c.Fail("guid.GUID.FromRawBytes", "reused-receiver", fmt.Sprintf("wire %x parsed into a GUID that held another value: %v, into a fresh one: %v", []byte(k.W), rg, got), smp)
+		}
+		c.ReusedInput("guid.GUID.FromRawBytes", k.W, func(b []byte) string {
+			x := &data_structures.GUID{}
+			h.Guard(func() { x.FromRawBytes(b) })
+			return fmt.Sprint(c13GuidFields(x))
+		}, h.Hex(k.W))
 	}
 	c.Exec(2)
 	// (2) fields -> packet, fields -> every text
